@@ -17,7 +17,9 @@ that they are the right genes is C08's business).
   chemical hybrid   one candidate per transitive group G (>= 2) of `share`, containing G and every
                     protocluster outside the `share` groups whose core lies inside the span of
                     the cores of G (a protocluster of ANOTHER share group with its core inside
-                    that span may or may not be included: the statement does not say);
+                    that span may or may not be included: the statement does not say; two share
+                    groups lying inside each other's core span may therefore also end up as one
+                    and the same candidate);
   interleaved       one candidate per transitive group (>= 2) of `cores`, unless it has exactly
                     the members of a chemical hybrid (that would be a second candidate with the
                     same coordinates and membership);
@@ -31,7 +33,12 @@ Case format (JSON-able, sufficient for `replay`):
   {"L": 800, "circ": bool, "protos": [[[cs, ce], [s, e]], ...], "share": [[i, j], ...]}
   s >= e denotes the origin-spanning location [s:L)+[0:e); protocluster i has product "p<i>";
   each pair in `share` gets one gene inside both cores annotated CORE for both products.
-  All orders of supply required by RULE are run by `replay` and by the checker.
+  All orders of supply required by RULE are run by `replay` and by the checker.  Membership of
+  a candidate is read as a set (the pinned code can list a protocluster twice, see C05-F6).
+
+Tiers: quick = the exhaustive grid family of RULE (n <= 4); thorough = larger grids, n = 5 on
+5 cells, plus seeded random arrangements of 5..6 protoclusters.  With >= 5 protoclusters the
+known defects compound; see the class C05-F10.
 """
 from __future__ import annotations
 
@@ -44,8 +51,6 @@ from bounded._c05_geom import (
     components,
     describe_exception,
     is_contiguous,
-    location_mask,
-    location_parts,
     make_gene,
     make_protocluster,
     make_record,
